@@ -12,6 +12,7 @@ import (
 	"github.com/evanphx/json-patch/v5/verifharness/gen"
 	jr "github.com/evanphx/json-patch/v5/verifharness/jsonref"
 	ref "github.com/evanphx/json-patch/v5/verifharness/ref6902"
+	"github.com/evanphx/json-patch/v5/verifharness/ref7396"
 	"github.com/evanphx/json-patch/v5/verifharness/refenc"
 )
 
@@ -553,7 +554,16 @@ func init() {
 					c.Count("merge-family-error")
 					return
 				}
-				if _, ok := wellFormed(c, api, out, d); ok {
+				if got, ok := wellFormed(c, api, out, d); ok {
+					if api == "MergePatch" {
+						if da, pb := mustParse(a), mustParse(b); da.K != jr.Null && !da.HasDup() && !pb.HasDup() {
+							if want := ref7396.Merge(da, pb); !jr.Equal(want, got, jr.EqMode{}) {
+								d["reference"] = clip(want.String(), 1500)
+								c.Violation("MergePatch:output-parses-to-a-different-value", d)
+								return
+							}
+						}
+					}
 					if strings.ContainsAny(a+b, "<>&\\") {
 						c.Nontrivial(api, a, b)
 					}
